@@ -96,11 +96,38 @@ fn grown(declared: usize, actual: usize) -> Option<String> {
     if !correct.starts_with(&w.out) { return Some(format!("{desc} expected=prefix-of-the-one-serialisation ({} bytes) actual={} bytes, not a prefix", correct.len(), w.out.len())); }
     None
 }
+/// a body of unknown length whose source fails midway (an event that does not fit the read window): what went out is a
+/// prefix of the serialisation of what the source delivered -- in particular no terminating chunk, which would make the
+/// truncated stream look complete
+fn streamfail(before: usize) -> Option<String> {
+    let desc = format!("streamfail events_before={before}");
+    let (mut sender, resp) = Response::event_stream();
+    let mut want = b"HTTP/1.1 200 OK\r\ncontent-type: text/event-stream\r\ntransfer-encoding: chunked\r\n\r\n".to_vec();
+    for i in 0..before {
+        let ev = servlin::Event::Message(format!("e{i}"));
+        let mut block = Vec::new(); ev.push_to(&mut block);
+        want.extend(format!("{:x}\r\n", block.len()).bytes()); want.extend(&block); want.extend(b"\r\n");
+        sender.send(ev);
+    }
+    sender.send(servlin::Event::Message("x".repeat(70000)));
+    sender.send(servlin::Event::Message("after".to_string()));
+    drop(sender);
+    let mut w = RecWriter::new();
+    let r = std::panic::catch_unwind(std::panic::AssertUnwindSafe(|| block_on(write_http_response(&mut w, &resp, false))));
+    let r = match r { Ok(r) => r, Err(_) => return Some(format!("{desc} expected=terminates-without-panic actual=panic")) };
+    if r.is_ok() { return Some(format!("{desc} expected=Err (the source failed) actual=Ok")); }
+    if w.out != want { return Some(format!("{desc} expected=exactly the head and the {before} chunks delivered before the failure ({} bytes) actual={} bytes ending {:?}", want.len(), w.out.len(), String::from_utf8_lossy(&w.out[w.out.len().saturating_sub(12)..]))); }
+    None
+}
 fn main() {
     std::panic::set_hook(Box::new(|_| {}));
     let args: Vec<String> = std::env::args().collect();
     if args.len() >= 3 && args[1] == "replay" {
         let w = args[2..].join(" ");
+        if w.starts_with("streamfail") {
+            let n: Vec<usize> = w.split(|c: char| !c.is_ascii_digit()).filter(|s| !s.is_empty()).filter_map(|s| s.parse().ok()).collect();
+            match streamfail(n[0]) { Some(m) => { println!("WITNESS {m}"); std::process::exit(1) } None => { println!("OK witness no longer fails"); std::process::exit(0) } }
+        }
         if w.starts_with("grownfile") {
             let n: Vec<usize> = w.split(|c: char| !c.is_ascii_digit()).filter(|s| !s.is_empty()).filter_map(|s| s.parse().ok()).collect();
             match grown(n[0], n[1]) { Some(m) => { println!("WITNESS {m}"); std::process::exit(1) } None => { println!("OK witness no longer fails"); std::process::exit(0) } }
@@ -127,6 +154,7 @@ fn main() {
     }
     // (async_fs reads ahead several MiB, so the file must be larger than that for the cut to land mid-body)
     for size in [24usize << 20, 40 << 20] { n += 1; if let Some(m) = shrink(size) { if found.len() < 6 { found.push(m) } } }
+    for b in [0usize, 1, 3] { n += 1; if let Some(m) = streamfail(b) { if found.len() < 6 { found.push(m) } } }
     for (d, a) in [(4usize, 10usize), (0, 5), (1, 2), (2000, 2001), (65536, 70000), (100, 200000)] { n += 1; if let Some(m) = grown(d, a) { if found.len() < 6 { found.push(m) } } }
     println!("EVALUATED {n}");
     for f in &found { println!("WITNESS {f}"); }
